@@ -8,6 +8,7 @@ import (
 	"io"
 	"net/http"
 	"net/url"
+	"os"
 	"runtime"
 	"runtime/debug"
 	"strings"
@@ -77,6 +78,10 @@ func recycle(round int) int {
 }
 
 func bufioNewReader(r io.Reader) *bufio.Reader { return bufio.NewReader(r) }
+
+type writerFunc func([]byte) (int, error)
+
+func (f writerFunc) Write(p []byte) (int, error) { return f(p) }
 
 func c17(c *ctx) {
 	runtime.GOMAXPROCS(1)
@@ -249,12 +254,34 @@ func c17(c *ctx) {
 		})
 	}
 	// ---- write side: caller slices untouched, destination bytes independent of the caller's slice
-	writeCase := func(key, op string, sz int, f func(p []byte, dst *bytes.Buffer)) {
-		if !vh.Only(key) {
+	writeCase := func(key, op string, sz int, f func(p []byte, dst io.Writer)) {
+		if !vh.Only(key) && !strings.HasPrefix(os.Getenv("VERIF_ONLY"), key+"/fail") {
 			return
 		}
 		p := vh.PBytes(3, 0, sz)
 		keep := append([]byte(nil), p...)
+		// the destination looks at the caller's slice while the write is in progress, and
+		// (in the failing variants) refuses its n-th write
+		for _, failAt := range []int{0, 1, 2} {
+			during := true
+			calls := 0
+			var sink bytes.Buffer
+			f(p, writerFunc(func(b []byte) (int, error) {
+				calls++
+				if !bytes.Equal(p, keep) {
+					during = false
+				}
+				if failAt > 0 && calls >= failAt {
+					return 0, vh.ErrInjected
+				}
+				return sink.Write(b)
+			}))
+			ok := during && bytes.Equal(p, keep)
+			out.Emit(pev{Ev: "setup", Key: fmt.Sprintf("%s/fail%d", key, failAt)}, true)
+			out.Emit(pev{Ev: "Caller", Op: op, Same: ok}, false)
+			n++
+			copy(p, keep)
+		}
 		var dst bytes.Buffer
 		f(p, &dst)
 		same := bytes.Equal(p, keep)
@@ -271,33 +298,33 @@ func c17(c *ctx) {
 	}
 	for _, sz := range []int{0, 1, 7, 8, 125, 126, 4096, 65536, 70000} {
 		sz := sz
-		writeCase(fmt.Sprintf("write/WriteMessage/%d", sz), "WriteMessage", sz, func(p []byte, d *bytes.Buffer) {
+		writeCase(fmt.Sprintf("write/WriteMessage/%d", sz), "WriteMessage", sz, func(p []byte, d io.Writer) {
 			wsutil.WriteClientMessage(d, ws.OpBinary, p)
 		})
-		writeCase(fmt.Sprintf("write/WriteClientText/%d", sz), "WriteClientText", sz, func(p []byte, d *bytes.Buffer) { wsutil.WriteClientText(d, p) })
-		writeCase(fmt.Sprintf("write/WriteServerBinary/%d", sz), "WriteServerBinary", sz, func(p []byte, d *bytes.Buffer) { wsutil.WriteServerBinary(d, p) })
-		writeCase(fmt.Sprintf("write/Writer.Write/%d", sz), "Writer.Write", sz, func(p []byte, d *bytes.Buffer) {
+		writeCase(fmt.Sprintf("write/WriteClientText/%d", sz), "WriteClientText", sz, func(p []byte, d io.Writer) { wsutil.WriteClientText(d, p) })
+		writeCase(fmt.Sprintf("write/WriteServerBinary/%d", sz), "WriteServerBinary", sz, func(p []byte, d io.Writer) { wsutil.WriteServerBinary(d, p) })
+		writeCase(fmt.Sprintf("write/Writer.Write/%d", sz), "Writer.Write", sz, func(p []byte, d io.Writer) {
 			w := wsutil.NewWriterSize(d, ws.StateClientSide, ws.OpBinary, 100)
 			w.Write(p)
 			w.Flush()
 		})
-		writeCase(fmt.Sprintf("write/WriteThrough/%d", sz), "WriteThrough", sz, func(p []byte, d *bytes.Buffer) {
+		writeCase(fmt.Sprintf("write/WriteThrough/%d", sz), "WriteThrough", sz, func(p []byte, d io.Writer) {
 			w := wsutil.NewWriter(d, ws.StateClientSide, ws.OpBinary)
 			w.WriteThrough(p)
 			w.Flush()
 		})
-		writeCase(fmt.Sprintf("write/CipherWriter/%d", sz), "CipherWriter", sz, func(p []byte, d *bytes.Buffer) {
+		writeCase(fmt.Sprintf("write/CipherWriter/%d", sz), "CipherWriter", sz, func(p []byte, d io.Writer) {
 			wsutil.NewCipherWriter(d, [4]byte{1, 2, 3, 4}).Write(p)
 		})
-		writeCase(fmt.Sprintf("write/MaskFrame/%d", sz), "MaskFrame", sz, func(p []byte, d *bytes.Buffer) {
+		writeCase(fmt.Sprintf("write/MaskFrame/%d", sz), "MaskFrame", sz, func(p []byte, d io.Writer) {
 			f := ws.MaskFrame(ws.NewBinaryFrame(p))
 			ws.WriteFrame(d, f)
 		})
-		writeCase(fmt.Sprintf("write/MaskFrameWith/%d", sz), "MaskFrameWith", sz, func(p []byte, d *bytes.Buffer) {
+		writeCase(fmt.Sprintf("write/MaskFrameWith/%d", sz), "MaskFrameWith", sz, func(p []byte, d io.Writer) {
 			f := ws.MaskFrameWith(ws.NewBinaryFrame(p), [4]byte{9, 8, 7, 6})
 			ws.WriteFrame(d, f)
 		})
-		writeCase(fmt.Sprintf("write/UnmaskFrame/%d", sz), "UnmaskFrame", sz, func(p []byte, d *bytes.Buffer) {
+		writeCase(fmt.Sprintf("write/UnmaskFrame/%d", sz), "UnmaskFrame", sz, func(p []byte, d io.Writer) {
 			f := ws.NewBinaryFrame(p)
 			f.Header.Masked, f.Header.Mask = true, [4]byte{4, 3, 2, 1}
 			g := ws.UnmaskFrame(f)
